@@ -1,5 +1,5 @@
 (* C05 property theorems only. *)
-From V Require Import lib.Verdict C05.Model C05.Proofs C05.ProofsSetup.
+From V Require Import lib.Verdict C05.Model C05.Proofs C05.ProofsSetup C05.ProofsWds C05.ProofsAll.
 Open Scope N_scope.
 
 (* A new stream knows nothing (new_stream = no watch for any type).  Every re-sent SotW
@@ -70,6 +70,35 @@ Theorem C05_resync_sotw : forall W st (r : req) (M0 : cmap) n,
 Proof. exact resync_sotw. Qed.
 Print Assumptions C05_resync_sotw.
 
+(* C05_resync over a whole reconnect: the client re-subscribes any set of distinct types in any
+   order, each with an arbitrary retained map, nonce and subscription; every one of them is
+   answered by a response of its type (no type stays warming) that resynchronises its map and
+   removes every retained name that is gone - by induction over the list of types. *)
+Theorem C05_resync_all_types : forall W cs st,
+  NoDup (map rc_ty cs) ->
+  (forall c, In c cs -> st (rc_ty c) = None /\ rc_ok c) ->
+  Forall (rc_synced W) (fst (reconnect_delta (run_gen GPlain W) st cs)).
+Proof. exact reconnect_all. Qed.
+Print Assumptions C05_resync_all_types.
+
+(* C05_resync, ztunnel (ADDR / WORKLOAD, wildcard subscription, real WorkloadGenerator branch):
+   for every retained map reported through initial_resource_versions, the answer re-sends exactly
+   the addresses whose version differs (or is empty), lists every retained name that is gone in
+   removed_resources, and the client ends with the world - the skipped resources are the ones it
+   retains at the current version. *)
+Theorem C05_resync_ztunnel : forall W st (r : dreq) (M0 : cmap) n1 n2,
+  st (d_ty r) = None -> d_err r = None -> requires_names_mod (d_ty r) = true ->
+  snd (fst (delta_watched_resources [] r)) = true ->
+  NoDup (rnames (W (d_ty r))) ->
+  d_init r = rnames M0 ->
+  (forall x, In x (rnames M0) -> ~ In x (d_unsub r) /\ x <> star) ->
+  exists d st',
+    process_delta_request (wds_gen W) st r M0 n1 n2 = ([d], st') /\ dr_ty d = d_ty r /\
+    map_eq (apply_delta M0 d) (W (d_ty r)) /\
+    (forall x, In x (rnames M0) -> lookup (W (d_ty r)) x = None -> In x (dr_removed d)).
+Proof. exact resync_wds. Qed.
+Print Assumptions C05_resync_ztunnel.
+
 (* warming dependency, SotW: a CDS (re)subscription on a stream that already watches EDS arms the
    EDS watch, and the next EDS request on the current (or empty) nonce is answered although it is
    an ACK - nothing stays warming. *)
@@ -131,6 +160,15 @@ Example C05_resync_example :
   | _ => False
   end.
 Proof. vm_compute. split; reflexivity. Qed.
+
+Example C05_ztunnel_example :
+  let W := fun t => match t with ADDR => [(1, 1); (2, 2)] | _ => [] end in
+  let M0 := [(1, 1); (2, 1); (3, 1)] in
+  match process_delta_request (wds_gen W) new_stream (mk_dreq ADDR [0] [] M0 7 None) M0 100 101 with
+  | ([d], _) => dr_res d = [(2, 2)] /\ dr_removed d = [3] /\ map_eqb (apply_delta M0 d) (W ADDR) = true
+  | _ => False
+  end.
+Proof. vm_compute. repeat split; reflexivity. Qed.
 
 Example C05_missed_is_reachable_and_avoidable :
   y_missed (yrun (sys0 5) [LConn; LCommit; LSnap; LConn; LConn]) = true /\
